@@ -89,6 +89,7 @@ func runC04(c *Ctx, r *Rec) {
 	fw := c.fieldWrites()
 
 	checkReceiverWrites(c, r, "D1-receiver-writes-persist", qr.q)
+	checkResetCompleteness(c, r, "D1-reset-complete", qr.q)
 	// ---- D1 lock discipline
 	st := structOf(qr.q)
 	for i := 0; i < st.NumFields(); i++ {
@@ -189,6 +190,7 @@ func runC04(c *Ctx, r *Rec) {
 		checkLockPairing(c, r, "D2-lock-pairing", info, ms[name], ms[name].Body, mkey, qr.mutexF.Name())
 	}
 	checkNoBlockingUnderLock(c, r, "D3-no-blocking-under-lock", qr)
+	checkNoReentryUnderLock(c, r, "D3-no-reentry-under-lock", qr)
 	r.floor("D2-lock-pairing", 1)
 	r.floor("D3-no-blocking-under-lock", 1)
 
@@ -506,6 +508,7 @@ func runC05(c *Ctx, r *Rec) {
 	info := c.info("collection")
 	ms := c.methodsOf(qr.q)
 	fw := c.fieldWrites()
+	checkResetCompleteness(c, r, "D1-reset-complete", qr.q)
 
 	// ---- D1 stable rendez-vous
 	construct := "collection.QueueLike/" + qr.roleOf(qr.chanF)
@@ -528,6 +531,7 @@ func runC05(c *Ctx, r *Rec) {
 	}
 	r.floor("D4-lock-released", 1)
 	checkNoBlockingUnderLock(c, r, "D4-no-wait-under-lock", qr)
+	checkNoReentryUnderLock(c, r, "D4-no-reentry-under-lock", qr)
 	checkTokenBalanceAtBirth(c, r, "D2-token-balance", qr)
 	// outputs of the plumbing helpers are closed when the input is (parked consumers are released)
 	{
@@ -1166,5 +1170,120 @@ func checkTokenBalanceAtBirth(c *Ctx, r *Rec, rule string, qr *queueRoles) {
 				r.verdict(rule, construct, c.pos(fs.Pos()), "one token per initial value", verdict)
 			}
 		}
+	}
+}
+
+// checkNoReentryUnderLock: while the queue's mutex is held - in a lock region of a method, or in
+// a function literal handed to an unexported method that calls it with the mutex held - the
+// queue is not handed to other code and none of its own locking methods is called.  Go's mutexes
+// are not re-entrant: the second Lock waits for the first, and with a read-write mutex a second
+// RLock deadlocks as soon as a writer queues up between the two.
+func checkNoReentryUnderLock(c *Ctx, r *Rec, rule string, qr *queueRoles) {
+	info := c.info("collection")
+	ms := c.methodsOf(qr.q)
+	mkey := objKey(qr.mutexF)
+	env := &symEnv{info: info}
+	// methods that take the mutex themselves
+	locking := map[string]bool{}
+	for name, fd := range ms {
+		g := newFG(info, fd.Body)
+		for _, b := range g.order {
+			for _, n := range b.Nodes {
+				if mutexOp(info, env, n, mkey) == "lock" {
+					locking[name] = true
+				}
+			}
+		}
+	}
+	// bracket helpers: unexported methods that call a function parameter with the mutex held
+	bracket := map[string]int{}
+	for name, fd := range ms {
+		if ast.IsExported(name) {
+			continue
+		}
+		ps := paramObjs(info, fd)
+		g := newFG(info, fd.Body)
+		li := computeLock(g, info, mkey)
+		inspectNoLit(fd.Body, func(x ast.Node) bool {
+			call, ok := x.(*ast.CallExpr)
+			if !ok {
+				return true
+			}
+			id, ok := ast.Unparen(call.Fun).(*ast.Ident)
+			if !ok {
+				return true
+			}
+			for pi, p := range ps {
+				if info.Uses[id] == types.Object(p) {
+					if held, ok := li.heldAt(call); ok && held {
+						bracket[name] = pi
+					}
+				}
+			}
+			return true
+		})
+	}
+	n := 0
+	for _, name := range sortedKeys(ms) {
+		fd := ms[name]
+		recv := recvObj(info, fd)
+		if recv == nil {
+			continue
+		}
+		g := newFG(info, fd.Body)
+		li := computeLock(g, info, mkey)
+		var regions []ast.Node
+		for _, b := range g.order {
+			for _, nd := range b.Nodes {
+				if li.held[nd] {
+					regions = append(regions, nd)
+				}
+			}
+		}
+		ast.Inspect(fd.Body, func(x ast.Node) bool {
+			call, ok := x.(*ast.CallExpr)
+			if !ok {
+				return true
+			}
+			if rx, mname, _, ok := methodCall(call); ok && isObj(info, rx, recv) {
+				if pi, ok := bracket[mname]; ok && pi < len(call.Args) {
+					if lit, ok := ast.Unparen(call.Args[pi]).(*ast.FuncLit); ok {
+						regions = append(regions, lit.Body)
+					}
+				}
+			}
+			return true
+		})
+		if len(regions) == 0 {
+			continue
+		}
+		n++
+		bad := ""
+		for _, reg := range regions {
+			inspectNoLit(reg, func(x ast.Node) bool {
+				call, ok := x.(*ast.CallExpr)
+				if !ok || bad != "" {
+					return true
+				}
+				if mutexOp(info, env, call, mkey) != "" {
+					return true
+				}
+				for _, a := range call.Args {
+					if isObj(info, a, recv) {
+						bad = fmt.Sprintf("the queue itself is handed to %s at %s while its mutex is held: code that looks at the queue locks the mutex again (a formatter reads it back through GetIterator and GetSize)", exprStr(call.Fun), c.pos(call.Pos()))
+					}
+				}
+				if rx, mname, _, ok := methodCall(call); ok && isObj(info, rx, recv) && locking[mname] {
+					if _, isBracket := bracket[mname]; !isBracket || true {
+						bad = fmt.Sprintf("%s, which takes the mutex, is called at %s while the mutex is already held", mname, c.pos(call.Pos()))
+					}
+				}
+				return true
+			})
+		}
+		r.check(bad == "", rule, c.fdName(fd), c.pos(fd.Pos()), "inside the lock regions the queue is not handed out and none of its locking methods is called", bad)
+	}
+	if n == 0 {
+		r.skip(rule, "collection.QueueLike/lock-regions", "", "no lock region found in the methods of the queue")
 	}
 }
